@@ -401,3 +401,25 @@ Definition maybe_with_defaults (r d : option res)
   | Some rr, Some dr =>
       let '(x, r', d', _) := with_defaults rr (Some dr) in (Some x, Some r', d', WNew)
   end.
+
+(* ---------------------------------------------------------------- pipefunc/_pipefunc.py: _maybe_max_resources *)
+(* resources of a NestedPipeFunc: the explicit argument if given (a Resources object is returned as is, a dict goes
+   through from_dict), else the children's resources: none -> None, exactly one -> that very object,
+   several -> combine_max.  Callables are outside the model. *)
+Fixpoint somes {A} (l : list (option A)) : list A :=
+  match l with [] => [] | Some x :: t => x :: somes t | None :: t => somes t end.
+Inductive explicit := ENone | ERes (r : res) | EDict (d : udict).
+Inductive mm_which := MNone | MExplicit | MChild | MNew.
+(* result (None = Python None), the children's resources after the call, which object the result is *)
+Definition maybe_max_resources (e : explicit) (children : list (option res))
+  : option (result res) * list (option res) * mm_which :=
+  match e with
+  | ERes r => (Some (Ok r), children, MExplicit)
+  | EDict d => (Some (from_dict d), children, MNew)
+  | ENone =>
+      match somes children with
+      | [c] => (Some (Ok c), children, MChild)
+      | [] => (None, children, MNone)
+      | l => (Some (fst (combine_max l)), children, MNew)
+      end
+  end.
